@@ -1,7 +1,8 @@
 (* C06 -- every RPC call gets exactly one correct return, in order, with pipelining.
    Statements only.  Proved at history level, for all histories OF THE MACHINE (coq/Rpc/Rpc.v):
    one_return, question_ids (ids and "each local call resolves exactly once").  What is NOT here:
-   - delivery_order (T2): differential run only;
+   - delivery_order (T2): per-handler theorems in Properties_C06_order.v; the composition over whole
+     histories is not proved (differential run);
    - no_sender_leak (T1): the machine has no sender-lock component; the one place where the as-found
      code kept the lock is a hand-placed [Stuck W_F14], refuted below on one history and excluded
      for all histories by C06_answers_progress (no step is Stuck); the lock discipline of the real
@@ -111,7 +112,7 @@ Theorem C06_shut_calls_resolved : forall boot evs s out, work evs < 4294967295 -
   s_shut s = true -> forall n, HQ n (s_qs s) = 0%nat.
 Proof. exact shut_calls_resolved. Qed.
 Print Assumptions C06_shut_calls_resolved.
-(* delivery_order (T2): stated below, not proved. *)
+(* delivery_order (T2): Properties_C06_order.v (per-handler theorems; trace composition not proved). *)
 
 (* ================= handler-level lemmas of the first round (kept) =================
    (Complete lemmas about single handlers; the history-level statements they were the partial
